@@ -91,7 +91,8 @@ CFG = {'streams': [{'name': 'C20',
                 'ng_cites_disp (chain_of_error_disp = chain_of_error with the texts computed from the file by stmt_at; under locs_uniqu'
                 'e the rendering contains display_stmt of the cited statement itself), display_stmt_injective_refuted (two different st'
                 'atements with the same text).',
- 'partial': ['the KIND and source position recorded for the matched node are compared by the stream only (the model of the execution '
+ 'partial': ['WHICH statement is cited: the older theorems (strict_error_stmt_loc, lazy_run_error_cites) use fails_directly / forced, which quantify existentially over the state; the run-level versions in Props/C20run.v (strict_error_cites_statement_of_the_run, lazy_run_error_cites_reached) tie the citation to states reached by the run, except inside `origin` (innermost thunk body), still tied by debug info only',
+             'the KIND and source position recorded for the matched node are compared by the stream only (the model of the execution '
              'identifies syntax nodes by index); the RENDERING of a recorded chain is modelled (Model/ErrRender.v, theorems '
              'render_pretty_*) and compared character by character by stream C20r'],
  'assumptions': ['tree-sitter queries are an external: raw matches are recorded by calling QueryCursor::matches directly on the stanza queries and '
@@ -99,7 +100,7 @@ CFG = {'streams': [{'name': 'C20',
                  'regex crate: modelled by Model/Regex.v on the generated sub-language (validated by stream C10rx); stdlib functions: Model/Stdlib.v '
                  '(validated by C13)',
                  'syntax nodes are identified by preorder index (KeyInjective: node ids distinct modulo 2^32, checked per tree in C04)',
-                 'errors returned by caller-supplied functions are plain errors',
+                 'errors returned by caller-supplied functions are plain errors (call_errors_base: PROVED for the stdlib, _stdlib corollaries)',
                  'rendering: the Display of the innermost error is an opaque string; the Display of a statement is modelled (Model/AstDi'
                  'splay.v) except for the Unicode table behind <str as Debug> (which non-ASCII characters are escaped: passed per case, '
                  'as for C14)'
